@@ -35,6 +35,10 @@ type C09Scenario struct {
 	// timeout bounds the context given to the store, nothing else: the record still precedes the handlers.
 	TimeoutMs int `json:"timeout_ms,omitempty"`
 	SlowMs    int `json:"slow_ms,omitempty"`
+	// TwoBuses (in-memory store only): a second bus, created with nothing but WithStore of the SAME store,
+	// takes the odd-numbered publisher tasks. The two buses share no lock of their own, so the appends of
+	// one overlap the appends of the other; the store alone keeps the log in offset order.
+	TwoBuses bool `json:"two_buses,omitempty"`
 }
 
 // slowStore is a store that ignores its context and takes its time.
@@ -78,6 +82,7 @@ func genC09(rt *rapid.T) core.Scenario {
 		sc.TimeoutMs = rapid.SampledFrom([]int{0, 5, 5}).Draw(rt, "timeoutMs")
 		sc.SlowMs = rapid.SampledFrom([]int{1, 20}).Draw(rt, "slowMs")
 	}
+	sc.TwoBuses = sc.Store.Kind == "mem" && np > 1 && rapid.IntRange(0, 2).Draw(rt, "twoBuses") == 2
 	sc.Handler = rapid.IntRange(0, 4).Draw(rt, "handlers") > 0
 	sc.Async = rapid.IntRange(0, 3).Draw(rt, "async") == 3
 	sc.Tape = core.DrawTape(rt, 400)
@@ -152,6 +157,10 @@ func (sc *C09Scenario) Execute(t *testing.T) *core.Outcome {
 			}
 		}
 		bus := eventbus.New(opts...)
+		buses := []*eventbus.EventBus{bus}
+		if sc.TwoBuses {
+			buses = append(buses, eventbus.New(eventbus.WithStore(store)))
+		}
 		ctx := context.Background()
 		handled := map[int]int{}
 		if sc.Handler {
@@ -160,6 +169,7 @@ func (sc *C09Scenario) Execute(t *testing.T) *core.Outcome {
 				so = append(so, eventbus.Async())
 			}
 			for si, sh := range shapes {
+			  for _, bus := range buses {
 				si, sh := si, sh
 				err := sh.Sub(bus, func(id int) {
 					if simrt.Dying() {
@@ -193,11 +203,13 @@ func (sc *C09Scenario) Execute(t *testing.T) *core.Outcome {
 					out.HarnessErr = err.Error()
 					return
 				}
+			  }
 			}
 		}
 		var tasks []*simrt.Task
 		for pi, l := range sc.Pubs {
 			l := l
+			bus := buses[pi%len(buses)]
 			tasks = append(tasks, simrt.GoNamed(fmt.Sprintf("pub%d", pi), func() {
 				for _, p := range l {
 					rec.Add("pub", p.ID, p.Shape, "")
@@ -210,7 +222,9 @@ func (sc *C09Scenario) Execute(t *testing.T) *core.Outcome {
 			}))
 		}
 		simrt.Join(tasks...)
-		bus.Wait()
+		for _, b := range buses {
+			b.Wait()
+		}
 		// after quiescence: exactly N records, offsets distinct and strictly increasing, content round-trips
 		evs, _, err := store.Read(ctx, eventbus.OffsetOldest, 0)
 		if err != nil {
